@@ -641,8 +641,8 @@ static void caseUnscaled(vh::Reporter& rep, long idx, Rng& rng, int grid) {
     }
     rep.count("comparisons", cx.comparisons);
     rep.count("comparisons_unscaled", cx.comparisons);
-    if (!(ok && cx.comparisons >= 500)) rep.count("trivial_unscaled");
-    rep.case_done(vh::fnv(d1), ok && cx.comparisons >= 500);
+    if (!(ok && cx.comparisons >= 300)) rep.count("trivial_unscaled");
+    rep.case_done(vh::fnv(d1), ok && cx.comparisons >= 300);
     if (idx < 3) rep.sample("class unscaled, family II deck of case " + std::to_string(idx) + ":\n" + d2, 3, 2500);
     cx.flush();
 }
@@ -790,12 +790,29 @@ static void checkEndPointMapping(Ctx& cx, const Cell& cell, const Model& m, cons
     // (2) function values at the scaled end-points
     const double pcwScale = m.present[E_PCW] && t.pcwMax > 0 ? e[E_PCW] / t.pcwMax : 1.0;
     const double pcgScale = m.present[E_PCG] && t.pcgMax > 0 ? e[E_PCG] / t.pcgMax : 1.0;
+    // Three-point vertical scaling of a curve whose table value at the critical saturation of the displacing phase equals
+    // its maximum (the curve is flat between the two anchors, or the anchors coincide): same expectation, own key, because
+    // the library decides "equal" on numbers that carry different rounding (see the report of this check)
+    const EndPts Tv = tableEndPts(t);
+    bool flat[4];
+    for (int i = 0; i < 4; ++i) flat[i] = m.present[RKW[i]] && std::fabs(Tv.v[RKW[i]] - Tv.v[MKW[i]]) <= 1e-9;
+    static const int CURVE_OF[NCURVE] = {0, 1, -1, 3, 2, -1};       // Curve -> index into RKW/MKW/anchors
+    const Anchors An = anchorsOf(e);
     for (int route = 0; route < 2; ++route) {
         auto V = [&](int c, const char* pt, double s, double expect, double tol) {
             if (!cell.supported(route, c) || cell.blendZone(route, c, s)) return;
+            const int ci = CURVE_OF[c];
+            const bool fl = ci >= 0 && flat[ci];
             std::ostringstream w; w.precision(17);
             w << tag << " route " << ROUTE[route] << " " << CURVE[c] << " at scaled end-point " << pt << " (S=" << s << ")";
-            cx.close(std::string("eps-endpoint-value:") + CURVE[c], w.str(), cell.eval(route, c, s), expect, tol);
+            if (fl) {
+                // for the witness: the value in the middle between the displacing-critical anchor and the anchor of the maximum
+                double xm = 0.5 * (An.a[ci][1] + An.a[ci][MAXSIDE[ci]]);
+                double sm = isGas(c) ? 1.0 - e[E_SWL] - xm : xm;
+                w << " [" << EPS_KW[RKW[ci]] << " present, table " << CURVE[c] << " at the critical saturation of the displacing phase equals its maximum; value half-way between the two scaled anchors (S="
+                  << sm << "): " << cell.eval(route, c, sm) << "]";
+            }
+            cx.close(std::string("eps-endpoint-value:") + CURVE[c] + (fl ? ":table-kr-at-displacing-critical-equals-maximum" : ""), w.str(), cell.eval(route, c, s), expect, tol);
         };
         V(KRW, "SWCR", e[E_SWCR], 0.0, KR_TOL);
         V(KRW, "SWU", e[E_SWU], e[E_KRW], KR_TOL);
@@ -861,8 +878,8 @@ static void caseEps(vh::Reporter& rep, long idx, Rng& rng, int grid) {
     }
     rep.count("comparisons", cx.comparisons);
     rep.count("comparisons_eps", cx.comparisons);
-    if (!(ok && cx.comparisons >= 50)) rep.count("trivial_eps");
-    rep.case_done(vh::fnv(dE), ok && cx.comparisons >= 50);
+    if (!(ok && cx.comparisons >= 30)) rep.count("trivial_eps");
+    rep.case_done(vh::fnv(dE), ok && cx.comparisons >= 30);
     if (idx < 8) rep.sample("class eps, deck of case " + std::to_string(idx) + ":\n" + dE, 3, 2500);
     cx.flush();
 }
